@@ -130,8 +130,9 @@ def gen_case(rng: random.Random, small=False) -> dict:
             case["added"] = p
         else: case["added"] = _rand_cells(rng, rows, cols, rng.randint(1, 6))
     for _ in range(rng.choice([0, 1, 1, 2, 3])):
-        form = rng.choice(["list", "list", "array", "styled_line", "styled_quiver"])
+        form = rng.choice(["list", "list", "array", "styled_line", "styled_quiver", "coord_arrays", "coord_arrays"])
         n = rng.choice([1, 2, 3, 5, 10]) if rng.random() < 0.9 else 0
+        if form.startswith("coord_arrays") and rng.random() < 0.6: n = 2      # a hop between two cells, the cells given as the library's own Coord arrays
         case["predicted"].append(dict(form=form, path=_rand_cells(rng, rows, cols, n, wild=rng.random() < 0.15)))
     return case
 
@@ -186,6 +187,8 @@ def observe(case) -> dict:
         pts = [tuple(x) for x in p["path"]]
         if p["form"] == "list": objs.append(pts)
         elif p["form"] == "array": objs.append(np.array(pts, dtype=case.get("path_dtype", None)).reshape(len(pts), 2))
+        elif p["form"] == "coord_arrays": objs.append([np.array(x) for x in pts])
+        elif p["form"] == "coord_arrays_tuple": objs.append(tuple(np.array(x) for x in pts))
         elif p["form"] == "styled_line": objs.append(StyledPath(path=np.array(pts).reshape(len(pts), 2), fmt=":", color="blue", quiver_kwargs=None))
         else: objs.append(StyledPath(path=np.array(pts).reshape(len(pts), 2), color="green", quiver_kwargs={"width": 0.01}))
     if len(objs) >= 2 and (len(objs) + case["rows"] + case["ul"]) % 2 == 0:
@@ -306,7 +309,7 @@ def oracle(case, obs) -> list[tuple[str, str]]:
         bad.append(("true-path", f"a plain maze got a true path {tp}"))
     if tp is not None: take_path("true path", tp, quiver=False)
     for i, p in enumerate(case["predicted"]):
-        take_path(f"predicted path {i + 1}", p["path"], quiver=p["form"] in ("list", "array", "styled_quiver"))
+        take_path(f"predicted path {i + 1}", p["path"], quiver=_is_quiver(p["form"]))
     if lines or quivers: bad.append(("extra-artists", f"{len(lines)} lines / {len(quivers)} arrow collections drawn beyond the listed paths"))
     # ---- ASCII export: default flags (the property's reading), and every flag combination where the maze's own drawing
     #      with the same flags is defined by the same call (path-less export with show_endpoints=False is the documented quirk:
@@ -360,7 +363,7 @@ def classify(case, img) -> list[list[int]]:
     return out.tolist()
 
 
-def _is_quiver(form): return form in ("list", "array", "styled_quiver")
+def _is_quiver(form): return form in ("list", "array", "styled_quiver", "coord_arrays", "coord_arrays_tuple")
 
 
 def requests(case, obs) -> list[dict]:
